@@ -377,6 +377,57 @@ func init() {
 					}
 					fillCase(c, n, full)
 				}})
+			// sibling sub-lists: variables that live only in the first, a middle or the last of several nested lists
+			// (a larger shape than the tree scope above reaches), every assignment x every split
+			sibAtoms := []*ref.Node{
+				ref.Uints(ref.U1, 7),
+				{Kind: ref.U1, Elems: []ref.Elem{{Var: "?"}}},
+				{Kind: ref.BOOLEAN, Elems: []ref.Elem{{Var: "?"}}},
+				{Kind: ref.F8, Elems: []ref.Elem{{F: 1}, {Var: "?"}}},
+				ref.AsciiVar("?", 0, -1),
+				ref.Var("?"),
+			}
+			nSib := len(sibAtoms)
+			sibShapes := []struct {
+				name  string
+				holes int
+				mk    func(a []*ref.Node) *ref.Node
+			}{
+				{"<L <L a> <L b>>", 2, func(a []*ref.Node) *ref.Node { return ref.List(ref.List(a[0]), ref.List(a[1])) }},
+				{"<L <L a> <L b> <L c>>", 3, func(a []*ref.Node) *ref.Node { return ref.List(ref.List(a[0]), ref.List(a[1]), ref.List(a[2])) }},
+				{"<L <U1 7> <L a> <L b>>", 2, func(a []*ref.Node) *ref.Node { return ref.List(ref.Uints(ref.U1, 7), ref.List(a[0]), ref.List(a[1])) }},
+				{"<L <L <L a>> <L b>>", 2, func(a []*ref.Node) *ref.Node { return ref.List(ref.List(ref.List(a[0])), ref.List(a[1])) }},
+				{"<L <L a> <L <L b> <L c>>>", 3, func(a []*ref.Node) *ref.Node {
+					return ref.List(ref.List(a[0]), ref.List(ref.List(a[1]), ref.List(a[2])))
+				}},
+				{"<L <L a> <L[0]> b>", 2, func(a []*ref.Node) *ref.Node { return ref.List(ref.List(a[0]), ref.List(), a[1]) }},
+				{"<L <L a b> <L c>>", 3, func(a []*ref.Node) *ref.Node { return ref.List(ref.List(a[0], a[1]), ref.List(a[2])) }},
+			}
+			sibTemplate := func(i uint64) (*ref.Node, string) {
+				sh := sibShapes[i%uint64(len(sibShapes))]
+				i /= uint64(len(sibShapes))
+				a := make([]*ref.Node, 3)
+				for j := 0; j < 3; j++ {
+					a[j] = sibAtoms[i%uint64(nSib)].Clone()
+					i /= uint64(nSib)
+				}
+				return sh.mk(a), sh.name
+			}
+			sp = append(sp, h.Space{Name: "sibling-sublists-x-assignments-x-splits", Count: product(len(sibShapes), nSib, nSib, nSib),
+				Describe: func(i uint64) interface{} { n, _ := sibTemplate(i); nameTemplate(n); return ref.Print(n) },
+				Run: func(c *h.Ctx, i uint64) {
+					n, _ := sibTemplate(i)
+					sh := sibShapes[i%uint64(len(sibShapes))]
+					if sh.holes == 2 && i/uint64(len(sibShapes))/uint64(nSib*nSib) != 0 {
+						c.Case(0, false, "duplicate-of-a-two-hole-shape")
+						return
+					}
+					if !nameTemplate(n) || n.Complete() {
+						c.Case(0, false, "no-variables")
+						return
+					}
+					fillCase(c, n, 3)
+				}})
 			// a fill-in value that brings its own variables is inserted AS IS: the same map must not be
 			// applied to it, even when the map has keys equal to its variable names
 			inner := []struct {
